@@ -759,6 +759,13 @@ def rule_returns_always(run):
         def return_paths(self):
             return ["rp"] if self.ret else []
 
+        # the sample blocks contain neither break nor continue
+        def contains_break(self):
+            return False
+
+        def contains_continue(self):
+            return False
+
     class _Self:
         pass
 
